@@ -6,6 +6,11 @@ HERE = os.path.dirname(os.path.abspath(__file__))
 
 # id -> (level, technique, text, note)   (only implemented checks are listed; the rest go to not_applicable)
 CHECKS = {
+    "C12": ("model_checking",
+            "exhaustive enumeration of read-call sequences (all sequences up to length 3 over a 40-call alphabet, all permutations of the calls per object) x 5 cache configurations on real documents, each answer compared with the same call alone on a fresh uncached document",
+            "The answer to a call must not depend on history or cache configuration: every sequence of <=2 calls under five configurations (SyncCache both / object only / stream only / own map-backed caches / none), every sequence of 3 under two (thorough: all) configurations and every ordering of the distinct calls on one object are executed on the real library; digests are canonical (no HashMap order, no offsets).",
+            "Trusted: digest functions. The call alphabet is fixed (typed loads as 5 types incl. mismatches, stream data, image data before/after the codec, page look-ups); longer sequences are not enumerated.",
+            "§5 C12"),
     "C10": ("model_checking",
             "deviation-bounded exhaustive exploration of PdfBuilder inputs (pages, operation sets, boxes, rotation, extras, resources, info) with two oracles per build: a reload through the library and an independent structural reader",
             "All builder inputs within 4 (quick) / 5 (thorough) deviations of the canonical one-page document are built with the real PdfBuilder; the output must reload with equal page count/order/boxes/rotation/extras/operations/resources/info and must pass an independent byte-level validation (header, startxref, every xref entry -> matching object header, /Size, every /Length, no dangling reference).",
